@@ -686,9 +686,8 @@ class EDXMLPushParser(EDXMLParserBase):
 
             self._element_iterator = self.__input_parser.read_events()
 
-        self.__input_parser.feed(data)
-
         try:
+            self.__input_parser.feed(data)
             self._parse_edxml()
         except XMLSyntaxError as e:
             raise EDXMLValidationError('Invalid XML: ' + str(e))
